@@ -24,12 +24,103 @@ class Sym(str):
     """Symbolic enum member (CON, NON, ...)."""
 
 
+class IntSet(frozenset):
+    """Set of code integers with interval-like accessors (min, max)."""
+
+    def as_interval(self):
+        if not self:
+            return None
+        lo, hi = min(self), max(self)
+        return (lo, hi) if len(self) == hi - lo + 1 else None
+
+
+def _eval_code_pred(e, v, shift, consts, depth=0):
+    """Evaluate a predicate over `self` (an int code) in the checker's own
+    evaluator: comparisons (chained), and/or/not, conditional expressions,
+    membership in constant tuples, `self.class_`, `bool(...)`."""
+    if depth > 20:
+        raise AnalysisError("code predicate too deep")
+    ev = lambda x: _eval_code_pred(x, v, shift, consts, depth + 1)
+    if isinstance(e, ast.Constant):
+        return e.value
+    if isinstance(e, ast.Name) and e.id == "self":
+        return v
+    if isinstance(e, ast.Attribute) and isinstance(e.value, ast.Name) and e.value.id == "self":
+        if e.attr == "class_" and shift is not None:
+            return v >> shift
+        if e.attr in consts:
+            return consts[e.attr]
+    if isinstance(e, ast.BoolOp):
+        if isinstance(e.op, ast.And):
+            r = True
+            for x in e.values:
+                r = ev(x)
+                if not r:
+                    return r
+            return r
+        r = False
+        for x in e.values:
+            r = ev(x)
+            if r:
+                return r
+        return r
+    if isinstance(e, ast.UnaryOp) and isinstance(e.op, ast.Not):
+        return not ev(e.operand)
+    if isinstance(e, ast.IfExp):
+        return ev(e.body) if ev(e.test) else ev(e.orelse)
+    if isinstance(e, ast.Call) and chain(e.func) == "bool" and len(e.args) == 1:
+        return bool(ev(e.args[0]))
+    if isinstance(e, (ast.Tuple, ast.List, ast.Set)):
+        return tuple(ev(x) for x in e.elts)
+    if isinstance(e, ast.BinOp):
+        l, r = ev(e.left), ev(e.right)
+        ops = {ast.RShift: lambda: l >> r, ast.LShift: lambda: l << r, ast.BitAnd: lambda: l & r, ast.BitOr: lambda: l | r,
+               ast.Add: lambda: l + r, ast.Sub: lambda: l - r, ast.FloorDiv: lambda: l // r, ast.Mod: lambda: l % r, ast.Mult: lambda: l * r}
+        if type(e.op) in ops:
+            return ops[type(e.op)]()
+    if isinstance(e, ast.Compare):
+        left = ev(e.left)
+        for op, c in zip(e.ops, e.comparators):
+            right = ev(c)
+            table = {ast.Lt: lambda: left < right, ast.LtE: lambda: left <= right, ast.Gt: lambda: left > right, ast.GtE: lambda: left >= right,
+                     ast.Eq: lambda: left == right, ast.NotEq: lambda: left != right, ast.Is: lambda: left == right, ast.IsNot: lambda: left != right,
+                     ast.In: lambda: left in right, ast.NotIn: lambda: left not in right}
+            if type(op) not in table:
+                raise AnalysisError("code predicate: operator outside the evaluator's vocabulary")
+            if not table[type(op)]():
+                return False
+            left = right
+        return True
+    raise AnalysisError("code predicate: `%s` is outside the evaluator's vocabulary" % stmt_text(e, 60))
+
+
 def code_predicates(prog):
-    """Extract the integer sets of Code.is_request/is_response/is_signalling/
-    is_successful from numbers/codes.py as predicates int -> bool, and the
-    class_ shift.  Returns dict name -> (lo, hi) inclusive bounds."""
+    """Extract the meaning of Code.is_request/is_response/is_signalling/is_successful from numbers/codes.py by
+    evaluating their (single) return expression for every code 0..255 in the checker's own evaluator.
+    Returns {name: IntSet, "class_shift": k}."""
     ci = prog.cls("numbers.codes.Code")
     out = {}
+    cf = ci.methods.get("class_")
+    if cf is None:
+        raise AnalysisError("Code.class_ missing")
+    rets = [n for n in walk_no_nested(cf.node) if isinstance(n, ast.Return)]
+    shift = None
+    if len(rets) == 1:
+        try:
+            bf = norm.bitfields(rets[0].value)
+            if len(bf) == 1 and bf[0][0] == "self" and bf[0][2] is None and bf[0][3] == 0:
+                shift = bf[0][1]
+        except norm.NormError:
+            shift = None
+    out["class_shift"] = shift
+    consts = {}
+    for k, v in ci.attrs.items():
+        try:
+            val = norm.consteval(v)
+        except norm.NormError:
+            continue
+        if isinstance(val, int):
+            consts[k] = val
     for name in ("is_request", "is_response", "is_signalling", "is_successful"):
         if name not in ci.methods:
             raise AnalysisError("Code.%s missing" % name)
@@ -37,38 +128,14 @@ def code_predicates(prog):
         rets = [n for n in walk_no_nested(fn) if isinstance(n, ast.Return)]
         if len(rets) != 1 or rets[0].value is None:
             raise AnalysisError("Code.%s is not a single-return predicate" % name)
-        v = rets[0].value
-        if isinstance(v, ast.IfExp) and isinstance(v.body, ast.Constant) and v.body.value is True and isinstance(v.orelse, ast.Constant) and v.orelse.value is False:
-            v = v.test
-        if isinstance(v, ast.Call) and chain(v.func) == "bool" and len(v.args) == 1:
-            v = v.args[0]
-        N = norm.Normalizer()
-        d = N.dnf(v)
-        if len(d) != 1:
-            raise AnalysisError("Code.%s is not a single interval" % name)
-        iv = norm.interval_of(next(iter(d)), "self")
-        if iv is None:
-            raise AnalysisError("Code.%s is not an interval over self" % name)
-        out[name] = iv
-    # class_ = self >> 5
-    cf = ci.methods.get("class_")
-    if cf is None:
-        raise AnalysisError("Code.class_ missing")
-    rets = [n for n in walk_no_nested(cf.node) if isinstance(n, ast.Return)]
-    ok = len(rets) == 1 and match("self >> 5", rets[0].value) is not None
-    if not ok:
-        try:
-            ok = len(rets) == 1 and norm.bitfields(rets[0].value) == [("self", 5, None, 0)]
-        except norm.NormError:
-            ok = False
-    out["class_shift"] = 5 if ok else None
+        out[name] = IntSet(v for v in range(256) if _eval_code_pred(rets[0].value, v, shift, consts))
     return out
 
 
-RFC_CODE_CLASSES = {  # RFC 7252 section 12.1, RFC 8323
+RFC_CODE_CLASSES = {  # RFC 7252 section 12.1, RFC 8323 (inclusive bounds within 0..255)
     "is_request": (1, 31),
     "is_response": (64, 191),
-    "is_signalling": (224, float("inf")),
+    "is_signalling": (224, 255),
     "is_successful": (64, 95),
 }
 
@@ -131,8 +198,7 @@ class Interp:
             if isinstance(e.func, ast.Attribute) and e.func.attr in self.preds and not e.args:
                 v = self.ev(e.func.value)
                 if isinstance(v, int) and not isinstance(v, bool):
-                    lo, hi = self.preds[e.func.attr]
-                    return lo <= v <= hi
+                    return v in self.preds[e.func.attr]
             raise Unknown("call %s" % stmt_text(e, 60))
         if isinstance(e, ast.UnaryOp) and isinstance(e.op, ast.Not):
             return not self.ev(e.operand)
